@@ -346,10 +346,12 @@ func runChunk(p *Property, c chunk, o DriveOpts, work, tag string, agg *Agg, mu 
 		switch {
 		case exit == OOMExit:
 			verdict, reason = Inconclusive, "oom"
+		case timedOut && !isoBudget():
+			verdict, reason = Inconclusive, "watchdog"
 		case timedOut:
-			// one isolated re-run with a long timeout
+			// one isolated re-run with a long timeout (at most a few per run)
 			out2 := out + ".iso"
-			d2, _, e2, t2, se2 := spawn(p, c.fam, o, died, died+1, out2, 20*time.Minute)
+			d2, _, e2, t2, se2 := spawn(p, c.fam, o, died, died+1, out2, 4*time.Minute)
 			if d2 {
 				mu.Lock()
 				absorb(out2, agg)
@@ -408,6 +410,20 @@ func tail(s string, n int) string {
 	return s
 }
 
+var isoMu sync.Mutex
+var isoLeft = 6
+
+// isoBudget: isolated re-runs are expensive; a run gets six of them.
+func isoBudget() bool {
+	isoMu.Lock()
+	defer isoMu.Unlock()
+	if isoLeft <= 0 {
+		return false
+	}
+	isoLeft--
+	return true
+}
+
 // WorkerBinary lets a check substitute a sanitizer build of the worker.
 var WorkerBinary = ""
 
@@ -423,7 +439,7 @@ func spawn(p *Property, f *Family, o DriveOpts, lo, hi int, out string, to time.
 	var eb bytes.Buffer
 	cmd.Stderr = &limitedWriter{b: &eb, n: 1 << 20}
 	cmd.Stdout = cmd.Stderr
-	cmd.SysProcAttr = &syscall.SysProcAttr{Setpgid: true}
+	cmd.SysProcAttr = &syscall.SysProcAttr{Setpgid: true, Pdeathsig: syscall.SIGKILL}
 	if err := cmd.Start(); err != nil {
 		return false, -1, -1, false, err.Error()
 	}
